@@ -19,6 +19,7 @@ ASSUMPTIONS = [
     "no executed signature operation with a real transaction digest precedes the splice (mock signatures only), so the spliced script hashes are irrelevant",
     "states after a failed exec token are not compared (the statement only fixes the reported error)",
 ]
+RERUN_PLAIN_AFTER_SANITIZER = True      # see core.evaluate_case
 TIERS = {
     "quick": {"cases": 7000, "flavours": ("asan",), "cap_s": 600},
     "thorough": {"cases": 250000, "flavours": ("asan",), "cap_s": 3 * 3600},
